@@ -503,5 +503,8 @@ func GenLoop(rt *rapid.T) LoopCase {
 	if hx.Chance(rt, 25, "lnofinalnl") {
 		s = strings.TrimSuffix(s, "\n")
 	}
+	if plainLines(s) && !strings.Contains(s, "sub") && !strings.Contains(s, "boom") && !strings.Contains(s, "recx") && !strings.Contains(s, "\"\"") && hx.Chance(rt, 50, "lfromreader") {
+		return LoopCase{In: B(s), FromReader: true}
+	}
 	return LoopCase{In: B(s)}
 }
